@@ -1027,11 +1027,7 @@ func (t *Tokenizer) readQuotedString(quote rune) (models.Token, error) {
 		if r == '\\' {
 			// Handle escape sequences
 			if err := t.handleEscapeSequence(&buf); err != nil {
-				return models.Token{}, errors.InvalidSyntaxError(
-					fmt.Sprintf("invalid escape sequence: %v", err),
-					models.Location{Line: t.pos.Line, Column: t.pos.Column},
-					string(t.input),
-				)
+				return models.Token{}, err
 			}
 			continue
 		}
@@ -1122,7 +1118,8 @@ func (t *Tokenizer) handleEscapeSequence(buf *bytes.Buffer) error {
 	t.pos.Column++
 
 	if t.pos.Index >= len(t.input) {
-		return errors.IncompleteStatementError(t.getCurrentPosition(), string(t.input))
+		// the input ends after the backslash: the literal is never closed
+		return errors.UnterminatedStringError(t.getCurrentPosition(), string(t.input))
 	}
 
 	r, size := utf8.DecodeRune(t.input[t.pos.Index:])
@@ -1136,11 +1133,12 @@ func (t *Tokenizer) handleEscapeSequence(buf *bytes.Buffer) error {
 	case 't':
 		buf.WriteRune('\t')
 	default:
-		return errors.InvalidSyntaxError(
+		// a lexical problem: report it with a tokenizer code, not the parser's "invalid syntax"
+		return errors.NewError(
+			errors.ErrCodeUnexpectedChar,
 			fmt.Sprintf("invalid escape sequence '\\%c'", r),
 			t.getCurrentPosition(),
-			string(t.input),
-		)
+		).WithContext(string(t.input), 1)
 	}
 
 	t.pos.Index += size
